@@ -17,6 +17,7 @@ import (
 	"context"
 	"fmt"
 	"os"
+	"path/filepath"
 	"runtime"
 	"strings"
 	"sync"
@@ -52,6 +53,7 @@ const (
 	c20UpdatePeer
 	c20Vrf
 	c20Watch
+	c20Mrt // EnableMrt / DisableMrt of one of two dump files (updates or table dump); what is enabled at the end stays enabled at Stop
 	c20MgmtOps
 )
 
@@ -111,6 +113,8 @@ func drawC20(t *rapid.T) c20Case {
 type c20Run struct {
 	c     *c20Case
 	n     *simNet
+	dir   string // scratch directory for MRT dumps (no time-layout verbs in the path)
+	mrtOn map[string]bool
 	mu    sync.Mutex
 	calls int
 	errs  []string
@@ -290,6 +294,19 @@ func (r *c20Run) mgmtActor(m int, wg *sync.WaitGroup) {
 			} else {
 				note("DeleteVrf", s.DeleteVrf(ctx, &api.DeleteVrfRequest{Name: name}))
 			}
+		case c20Mrt:
+			file := filepath.Join(r.dir, []string{"table.mrt", "updates.mrt"}[op.A%2])
+			r.mu.Lock()
+			on := r.mrtOn[file]
+			r.mrtOn[file] = !on
+			r.mu.Unlock()
+			if on {
+				note("DisableMrt", s.DisableMrt(ctx, &api.DisableMrtRequest{Filename: file}))
+			} else if op.A%2 == 0 {
+				note("EnableMrt", s.EnableMrt(ctx, &api.EnableMrtRequest{DumpType: api.EnableMrtRequest_DUMP_TYPE_TABLE, Filename: file, DumpInterval: 60}))
+			} else {
+				note("EnableMrt", s.EnableMrt(ctx, &api.EnableMrtRequest{DumpType: api.EnableMrtRequest_DUMP_TYPE_UPDATES, Filename: file}))
+			}
 		case c20Watch:
 			if watchCancel != nil {
 				watchCancel()
@@ -338,7 +355,9 @@ func c20Bubble(t *testing.T, budget time.Duration, fn func() *verifkit.Failure) 
 			if r := recover(); r != nil {
 				buf := make([]byte, 1<<16)
 				buf = buf[:runtime.Stack(buf, false)]
-				inner = &verifkit.Failure{Sig: "panic", Msg: fmt.Sprintf("panic: %v\n%s", r, buf)}
+				if inner == nil { // (a bubble left with blocked goroutines panics after fn returned its own failure: keep that one)
+					inner = &verifkit.Failure{Sig: "panic", Msg: fmt.Sprintf("panic: %v\n%s", r, buf)}
+				}
 			}
 		}()
 		synctest.Test(t, func(t *testing.T) {
@@ -379,7 +398,18 @@ func runC20(t *testing.T) func(c c20Case, st *verifkit.Stats) *verifkit.Failure 
 				return verifkit.Failf("start", "%v", err)
 			}
 			defer n.stop()
-			r := &c20Run{c: &c, n: n}
+			r := &c20Run{c: &c, n: n, mrtOn: map[string]bool{}}
+			tag := []byte(fmt.Sprintf("%d-%d", os.Getpid(), c19dDirSeq.Add(1)))
+			for i := range tag {
+				if tag[i] != '-' {
+					tag[i] = 'a' + (tag[i] - '0')
+				}
+			}
+			r.dir = filepath.Join(os.TempDir(), "verif-ct-"+string(tag))
+			if err := os.MkdirAll(r.dir, 0o755); err != nil {
+				return verifkit.Failf("setup", "%v", err)
+			}
+			defer os.RemoveAll(r.dir)
 			if err := rsAddPeers(n, rsGlobal{}, c.Peers); err != nil {
 				return verifkit.Failf("addpeer", "%v", err)
 			}
@@ -435,4 +465,43 @@ func runC20(t *testing.T) func(c c20Case, st *verifkit.Stats) *verifkit.Failure 
 
 func TestVerifC20(t *testing.T) {
 	verifkit.Run(t, "C20", drawC20, runC20(t))
+}
+
+// c20StopLeavesBmp (real time, no bubble: the BMP client dials a real TCP address): a BMP
+// station that cannot be reached keeps its client goroutine in the connect loop; Stop must end it.
+func init() {
+	verifkit.RegisterProbe("C20", "stop-leaves-bmp-client", func(st *verifkit.Stats) *verifkit.Failure {
+		count := func() int {
+			buf := make([]byte, 4<<20)
+			buf = buf[:runtime.Stack(buf, true)]
+			return strings.Count(string(buf), "(*bmpClient).loop")
+		}
+		before := count()
+		s := NewBgpServer()
+		go s.Serve()
+		ctx := context.Background()
+		if err := s.StartBgp(ctx, &api.StartBgpRequest{Global: &api.Global{Asn: 65000, RouterId: "192.0.2.254", ListenPort: -1}}); err != nil {
+			return verifkit.Failf("start", "%v", err)
+		}
+		// port 1 on the loopback: refused at once, the client retries with a growing interval
+		if err := s.AddBmp(ctx, &api.AddBmpRequest{Address: "127.0.0.1", Port: 1, Policy: api.AddBmpRequest_MONITORING_POLICY_PRE}); err != nil {
+			s.Stop()
+			return verifkit.Failf("add-bmp", "%v", err)
+		}
+		time.Sleep(50 * time.Millisecond)
+		if count() <= before {
+			s.Stop()
+			return verifkit.Failf("probe", "no BMP client goroutine after AddBmp")
+		}
+		s.Stop()
+		deadline := time.Now().Add(8 * time.Second)
+		for time.Now().Before(deadline) {
+			if count() <= before {
+				st.Nontrivial()
+				return nil
+			}
+			time.Sleep(100 * time.Millisecond)
+		}
+		return verifkit.Failf("goroutine-leak", "the BMP client of an unreachable station is still in its connect loop 8 s after Stop()")
+	})
 }
